@@ -505,6 +505,65 @@ theorem tokSend_keep {name : Asset → String} {w w' : World} {t sender dst amt 
       exact (tokTransfer_same h1).1.keep.trans (routerReceive_keep h2)
     · cases h
 
+theorem tokSendFrom_keep {name : Asset → String} {w w' : World} {t sp o dst amt : Nat} {hk : Hook} {out : Out}
+    (h : tokSendFrom name w t sp o dst amt hk = .ok (w', out)) : Keep w w' := by
+  obtain ⟨w1, h1, ⟨_, h2⟩ | ⟨_, _, _, h2⟩⟩ := tokSendFrom_ok h
+  · exact (tokTransferFrom_same h1).1.keep.trans (pairReceive_keep h2)
+  · exact (tokTransferFrom_same h1).1.keep.trans (routerReceive_keep h2)
+
+/-- the pair's `execute` on a raw `Receive` without funds is `receive_cw20` itself -/
+theorem pairExec_receive_nofunds {w : World} {s p from_ amount : Nat} {hk : Hook} (hp : (w.pair p).isSome) :
+    pairExec w s p [] (.receive from_ amount hk) = pairReceive w p s from_ amount hk := by
+  unfold pairExec
+  cases hP : w.pair p with
+  | none => rw [hP] at hp; cases hp
+  | some P => simp [attach]; rfl
+
+theorem routerExec_receive_nofunds {name : Asset → String} {w : World} {s from_ amount : Nat} {hk : Hook} :
+    routerExec name w s [] (.receive from_ amount hk) = routerReceive name w from_ hk := by
+  unfold routerExec
+  simp [attach]
+  rfl
+
+/-- cw20 `SendFrom` is exactly: `TransferFrom` by the spender, then the `Receive` the token contract sends to the
+destination — `info.sender` = the token, `cw20_msg.sender` = the SPENDER, no funds — i.e. the very message the
+pair / router would process had it been submitted raw by the token contract.  Every statement about a raw
+`Receive` (`Op.pair t d [] (.receive …)`, `Op.router t [] (.receive …)`) therefore speaks about `SendFrom` too. -/
+theorem exec_tokSendFrom_iff {name : Asset → String} {w : World} {t sp o d amt : Nat} {hk : Hook} {r : World × Out} :
+    exec name w (.tokSendFrom t sp o d amt hk) = .ok r ↔
+      ∃ w1, tokTransferFrom w t sp o d amt = .ok w1 ∧
+        (((w.pair d).isSome ∧ exec name w1 (.pair t d [] (.receive sp amt hk)) = .ok r) ∨
+         ((w.pair d).isSome = false ∧ d = w.router ∧ exec name w1 (.router t [] (.receive sp amt hk)) = .ok r)) := by
+  obtain ⟨w', out⟩ := r
+  constructor
+  · intro h
+    obtain ⟨w1, h1, h2⟩ := tokSendFrom_ok (show tokSendFrom name w t sp o d amt hk = .ok (w', out) from h)
+    have s1 := (tokTransferFrom_same h1).1
+    refine ⟨w1, h1, ?_⟩
+    rcases h2 with ⟨hd, h2⟩ | ⟨hd, hr, rfl, h2⟩
+    · refine .inl ⟨hd, ?_⟩
+      show pairExec w1 t d [] (.receive sp amt hk) = .ok (w', out)
+      rw [pairExec_receive_nofunds (by rw [s1.pair]; exact hd)]
+      exact h2
+    · refine .inr ⟨hd, hr, ?_⟩
+      show (do let w' ← routerExec name w1 t [] (.receive sp amt hk); pure (w', Out.none)) = .ok (w', Out.none)
+      rw [routerExec_receive_nofunds, h2]
+      rfl
+  · rintro ⟨w1, h1, ⟨hd, h2⟩ | ⟨hd, hr, h2⟩⟩
+    · have s1 := (tokTransferFrom_same h1).1
+      have h2' : pairExec w1 t d [] (.receive sp amt hk) = .ok (w', out) := h2
+      rw [pairExec_receive_nofunds (by rw [s1.pair]; exact hd)] at h2'
+      show tokSendFrom name w t sp o d amt hk = .ok (w', out)
+      unfold tokSendFrom
+      rw [if_pos hd, h1]
+      exact h2'
+    · have h2' : (do let w' ← routerExec name w1 t [] (.receive sp amt hk); pure (w', Out.none)) = .ok (w', out) := h2
+      rw [routerExec_receive_nofunds] at h2'
+      show tokSendFrom name w t sp o d amt hk = .ok (w', out)
+      unfold tokSendFrom
+      rw [if_neg (by simp [hd]), if_pos hr, h1]
+      exact h2'
+
 theorem owner_changes_only_by_owner {name : Asset → String} {w w' : World} {op : Op} {out : Out}
     (h : exec name w op = .ok (w', out)) :
     w'.owner = w.owner ∨
@@ -538,6 +597,19 @@ theorem owner_changes_only_by_owner {name : Asset → String} {w w' : World} {op
     obtain ⟨hs, hk | ⟨o, tc, pc, rfl, ho⟩⟩ := facExec_ok h1
     · exact .inl hk.owner
     · exact .inr ⟨s, f, o, tc, pc, rfl, hs, ho⟩
+  | tokTransferFrom t sp o d a =>
+    simp only [exec, bind_ok_iff, pure_ok_iff, Prod.mk.injEq] at h
+    obtain ⟨w1, h1, rfl, _⟩ := h
+    exact .inl (tokTransferFrom_same h1).1.owner
+  | tokSendFrom t sp o d a hk => exact .inl (tokSendFrom_keep h).owner
+  | tokBurnFrom t sp o a =>
+    simp only [exec, bind_ok_iff, pure_ok_iff, Prod.mk.injEq] at h
+    obtain ⟨w1, h1, rfl, _⟩ := h
+    exact .inl (tokBurnFrom_same h1).1.owner
+  | tokDecAllow t o sp a =>
+    simp only [exec, bind_ok_iff, pure_ok_iff, Prod.mk.injEq] at h
+    obtain ⟨w1, h1, rfl, _⟩ := h
+    exact .inl (tokDecAllow_same h1).1.owner
 
 theorem pair_update_only_factory {w : World} {s p : Nat} {funds : List (Nat × Nat)} {d da db : Nat} {r : World × Out}
     (h : pairExec w s p funds (.updateDecimals d da db) = .ok r) : ∃ P, w.pair p = some P ∧ s = P.factory := by
@@ -588,6 +660,28 @@ theorem send_hook_auth {w : World} {t u p amt : Nat} {h' : Hook} {r : World × O
     exact ⟨P, hp ▸ hP, hs⟩
   | routerOps ops mn to => exact absurd h2 pairReceive_routerOps
   | garbage => exact absurd h2 pairReceive_garbage
+
+/-- the same authentication for a hook delivered by `SendFrom` to a pair -/
+theorem sendFrom_hook_auth {name : Asset → String} {w : World} {t sp o p amt : Nat} {h' : Hook} {r : World × Out}
+    (hp : (w.pair p).isSome) (h : tokSendFrom name w t sp o p amt h' = .ok r) :
+    ∃ P, w.pair p = some P ∧
+      (match h' with
+       | .swap offer a _ _ _ => (P.a0 = .token t ∨ P.a1 = .token t) ∧ offer = .token t ∧ a = amt
+       | .withdraw => t = P.lp
+       | _ => False) := by
+  obtain ⟨w', out⟩ := r
+  obtain ⟨w1, h1, ⟨_, h2⟩ | ⟨hd, _⟩⟩ := tokSendFrom_ok h
+  · have hpair := (tokTransferFrom_same h1).1.pair
+    cases h' with
+    | swap offer a b ms to =>
+      obtain ⟨P, hP, ha, ht, ho, _⟩ := pairReceive_swap h2
+      exact ⟨P, hpair ▸ hP, ht, ho, ha⟩
+    | withdraw =>
+      obtain ⟨P, hP, hs, _⟩ := pairReceive_withdraw h2
+      exact ⟨P, hpair ▸ hP, hs⟩
+    | routerOps ops mn to => exact absurd h2 pairReceive_routerOps
+    | garbage => exact absurd h2 pairReceive_garbage
+  · rw [hd] at hp; cases hp
 
 theorem garbage_hook_rejected {w : World} {s p from_ amount : Nat} {funds : List (Nat × Nat)} {r : World × Out} :
     pairExec w s p funds (.receive from_ amount .garbage) ≠ .ok r := by
